@@ -1,7 +1,125 @@
+(* C10 — HLS playlist and segments are consistent, bounded and independently decodable.
+   Statements only; the model is Model/C10Hls.v, the proofs are in Proofs/C10HlsProofs.v.
+   [steps c (init c) ops] is the state after any history of frames, segment fetches, playlist
+   calls and Close; [feed c fs (init c)] the state after the frames [fs]. *)
 From Coq Require Import ZArith List Bool.
 From V Require Import Val Bytes C10Hls C10HlsProofs.
 Import ListNotations.
+Open Scope Z_scope.
 
-Theorem C10_overlay_firstn : forall new old, firstn (length new) (overlay new old) = new.
-Proof. exact overlay_firstn. Qed.
-Print Assumptions C10_overlay_firstn.
+(* the playlist: at most three segments, always the most recent complete ones; served as soon as three
+   exist; exactly three entries with consecutive numbers from the media sequence; every URI names its
+   number, resolves (view_ok: member of the resolvable set) and carries the caller's token; the target
+   duration is not below any listed "%.3f" duration *)
+Theorem C10_playlist_window : forall c ops tok,
+  forallb op_wf ops = true ->
+  let s := steps c (init c) ops in
+  (length (pl s) <= 3)%nat /\
+  (exists older, closed s = older ++ pl s) /\
+  (cur s <> None -> (3 <= length (closed s))%nat -> m3u8 c tok s <> None) /\
+  forall v, m3u8 c tok s = Some v ->
+    length (v_entries v) = 3%nat /\
+    v_entries v = map (entry_of c tok) (pl s) /\
+    map s_seq (pl s) = [v_mseq v; v_mseq v + 1; v_mseq v + 2] /\
+    view_ok c tok (live_seqs s) v = true /\
+    (forall e, In e (v_entries v) -> e_ms e <= v_target v * 1000 /\ e_tok e = tok).
+Proof. exact playlist_window. Qed.
+Print Assumptions C10_playlist_window.
+
+(* the float model: what "%.3f" prints for float64(x)/90000 never exceeds int32(float64(x)/90000 + 1) seconds *)
+Theorem C10_millis_le_target : forall x, 0 <= x < 2 ^ 53 -> millis x <= (x / TICKS + 1) * 1000.
+Proof. exact millis_le_target. Qed.
+Print Assumptions C10_millis_le_target.
+
+(* across consecutive segments (closed ones in order, then the open one, then the pending audio batch) every
+   source frame with a payload appears exactly once and in order, per track: audio is batched for up to
+   100 ms, so the two tracks interleave differently from the input but neither loses, repeats nor reorders
+   a frame.  (DESIGN.md planned "the concatenation equals the input list"; that is false because of the
+   audio batching and is replaced by the per-track statement.)  Guard: fragment >= 1 s. *)
+Theorem C10_segments_partition_frames : forall c fs, 1 <= c_frag c ->
+  let s := feed c fs (init c) in
+  dropped s = [] /\
+  vids (all_frames s) = filter video_in fs /\
+  auds (all_frames s) ++ cache_src s = filter audio_in fs.
+Proof. exact segments_partition. Qed.
+Print Assumptions C10_segments_partition_frames.
+
+(* nothing is ever discarded as "shorter than 100 ms" when the fragment is at least one second
+   (config.HlsFragment() never returns less than 5) *)
+Theorem C10_short_segment_unreachable : forall c fs, 1 <= c_frag c -> dropped (feed c fs (init c)) = [].
+Proof. exact short_segment_unreachable. Qed.
+Print Assumptions C10_short_segment_unreachable.
+
+(* every listed segment after the first that was not opened by the audio-driven reap starts its video with
+   a key frame whose elementary stream begins AUD, SPS, PPS, start code.  Full statement (no s_aud guard)
+   is false: C10_long_gop_segment_refuted (D35, known finding). *)
+Theorem C10_segment_starts_with_key : forall c ops g,
+  forallb op_wf ops = true ->
+  let s := steps c (init c) ops in
+  In g (pl s) -> s_seq g <> 1 -> s_aud g = false ->
+  exists w, first_video (s_frames g) = Some w /\ w_key w = true /\ is_prefix (key_header c) (w_es w) = true.
+Proof. exact segment_starts_with_key. Qed.
+Print Assumptions C10_segment_starts_with_key.
+
+(* the guard is vacuous for a stream without audio *)
+Theorem C10_video_only_never_audio_reap : forall c fs,
+  forallb (fun f => negb (is_audio (f_kind f))) fs = true ->
+  forall g, In g (pl (feed c fs (init c))) -> s_aud g = false.
+Proof. exact video_only_never_audio_reap. Qed.
+Print Assumptions C10_video_only_never_audio_reap.
+
+Theorem C10_long_gop_segment_refuted :
+  forallb frame_wf d35_frames = true /\
+  exists g, In g (pl (feed d35_cfg d35_frames (init d35_cfg))) /\ s_seq g = 2 /\ s_aud g = true /\
+            starts_with_key d35_cfg (s_frames g) = false.
+Proof. exact long_gop_segment_refuted. Qed.
+Print Assumptions C10_long_gop_segment_refuted.
+
+(* storage: at most three listed segments, at most four files (three listed + the open one) in disk mode,
+   and only the listed numbers resolve *)
+Theorem C10_storage_bounded : forall c ops,
+  forallb op_wf ops = true ->
+  let s := steps c (init c) ops in
+  (length (pl s) <= 3)%nat /\ (length (file_seqs c s) <= 4)%nat /\
+  (forall seq, fetch c seq s <> None -> In seq (live_seqs s)).
+Proof. exact storage_bounded. Qed.
+Print Assumptions C10_storage_bounded.
+
+(* a reader handed out in disk mode or by the repaired memory store reads the transport stream of the frames of
+   that number in every later state [s'] (any number of rollovers, Close) *)
+Theorem C10_segment_bytes_stable : forall (tsw : list wframe -> bytes) c s seq r,
+  c_copy c = true \/ c_mem c = false ->
+  fetch c seq s = Some r ->
+  exists g, find_seg seq (pl s) = Some g /\ forall s', read_bytes tsw r s' = tsw (s_frames g).
+Proof. exact segment_bytes_stable. Qed.
+Print Assumptions C10_segment_bytes_stable.
+
+(* D19: the code before the repair (a view of the pooled buffer) does not have that property *)
+Theorem C10_segment_alias_refuted :
+  exists r g, fetch d19_cfg 1 d19_before = Some r /\ find_seg 1 (pl d19_before) = Some g /\
+    read_bytes toy_tsw r d19_before = toy_tsw (s_frames g) /\
+    read_bytes toy_tsw r d19_after <> toy_tsw (s_frames g).
+Proof. exact segment_alias_refuted. Qed.
+Print Assumptions C10_segment_alias_refuted.
+
+(* the oracle applied to the implementation accepts the model on every well-formed history *)
+Theorem C10_model_passes : forall c dtok ops,
+  wf c ops = true -> ok c dtok false ops (model c dtok ops) = true.
+Proof. exact model_passes_oracle. Qed.
+Print Assumptions C10_model_passes.
+
+(* non-vacuity: a well-formed history in which the playlist is served, the window has rolled over and the
+   unguarded key-frame clause holds too *)
+Definition nv_cfg : cfg :=
+  {| c_frag := 1; c_rate := 44100; c_mem := true; c_copy := true; c_path := [47; 97]; c_sps := [103]; c_pps := [104];
+     c_pick := fun _ => O |}.
+Definition nv_ops : list op := map (fun i => OFrame (d19_key i)) [0; 1; 2; 3; 4; 5; 6; 7; 8] ++ [OFetch 2; ORead 0; OClose].
+Example C10_nonvacuous :
+  wf nv_cfg nv_ops = true /\ 1 <= c_frag nv_cfg /\
+  ok nv_cfg [116] true nv_ops (model nv_cfg [116] nv_ops) = true /\
+  existsb (fun o => match o_pl o with Some _ => true | None => false end) (model nv_cfg [116] nv_ops) = true /\
+  map s_seq (pl (steps nv_cfg (init nv_cfg) (firstn 9 nv_ops))) = [2; 3; 4].
+Proof.
+  split; [vm_compute; reflexivity|]. split; [vm_compute; discriminate|].
+  split; [vm_compute; reflexivity|]. split; vm_compute; reflexivity.
+Qed.
